@@ -275,8 +275,11 @@ impl Checker {
                             continue;
                         }
                     }
+                    // the gauge is compared for emptiness only: how many tasks a combinator uses is
+                    // structure, not behaviour (a refactoring may host differently); whether *any*
+                    // task is left when nothing can happen any more is the property
                     if let Some(l) = obs.live {
-                        if l != live {
+                        if (l == 0) != (live == 0) {
                             continue;
                         }
                     }
@@ -551,7 +554,7 @@ fn classify(pe: &[ObsEff], pv: &[Event], pd: bool, pl: usize, obs: &ObsOut) -> S
         }
     }
     if let Some(l) = obs.live {
-        if l != pl {
+        if (l == 0) != (pl == 0) {
             return if l > pl { "tasks/lingering-task".into() } else { "tasks/task-discarded-early".into() };
         }
     }
